@@ -1,6 +1,7 @@
 package rules
 
 import (
+	"fmt"
 	"strings"
 
 	"golang.org/x/tools/go/ssa"
@@ -28,18 +29,53 @@ func runC15(x *Ctx) {
 	x.C.Rule("C15.R3", "single separator constant in Top / Join / Segments", 3)
 
 	if f := x.fn("C15.R1", "(pkg/command.Command).Covers"); f != nil {
-		pre := "call[strings.HasPrefix](conv[string](arg0),conv[string](recv))"
-		top := `eq(const("/"),recv)`
-		same := "eq(len(arg0),len(recv))"
-		sep := "eq(arg0[len(recv)],const(47))"
-		x.noPath("C15.R1", "prefix-required", f, paths.WantTrue, atoms(map[string]bool{pre: false}), 0,
-			"Covers never returns true unless strings.HasPrefix(other, c) (other = argument, c = receiver)")
-		x.noPath("C15.R1", "boundary-required", f, paths.WantTrue, atoms(map[string]bool{top: false, same: false, sep: false}), 0,
-			"Covers never returns true on a bare textual prefix: one of c == \"/\", len(c) == len(other), other[len(c)] == '/' must hold")
-		x.noPath("C15.R1", "covers:top", f, paths.WantFalse, atoms(map[string]bool{pre: true, top: true}), 0, "the top command covers every command it prefixes")
-		x.noPath("C15.R1", "covers:equal", f, paths.WantFalse, atoms(map[string]bool{pre: true, same: true}), 0, "a command covers itself")
-		x.noPath("C15.R1", "covers:child", f, paths.WantFalse, atoms(map[string]bool{pre: true, sep: true}), 0, "a command covers the commands that continue it at a segment boundary")
-		x.somePath("C15.R1", "covers:reachable", f, paths.WantTrue, atoms(map[string]bool{pre: true, sep: true}), 0, "some path returns true")
+		// accepted renderings of the two facts (today's HasPrefix form and the strings.CutPrefix form)
+		cut := "call[strings.CutPrefix](conv[string](arg0),conv[string](recv))"
+		rest := cut + "#0"
+		prefixAtoms := []string{"call[strings.HasPrefix](conv[string](arg0),conv[string](recv))", cut + "#1"}
+		boundaryAtoms := []string{
+			`eq(const("/"),recv)`, "eq(len(arg0),len(recv))", "eq(arg0[len(recv)],const(47))",
+			eqs(rest, `const("")`), eqs("len("+rest+")", "const(0)"), eqs(rest+"[const(0)]", "const(47)"), "call[strings.HasPrefix](" + rest + `,const("/"))`,
+		}
+		all := func(names []string, v bool) map[string]bool {
+			m := map[string]bool{}
+			for _, n := range names {
+				m[n] = v
+			}
+			return m
+		}
+		// which of them occur in the function
+		used := map[string]bool{}
+		for _, p := range x.pathsQuiet(f) {
+			for _, fc := range p.Facts {
+				used[fc.Atom.String()] = true
+			}
+			if p.End == paths.EndReturn {
+				if _, _, a, _ := p.BoolResult(0); a != nil {
+					used[a.String()] = true
+				}
+			}
+		}
+		x.noPath("C15.R1", "prefix-required", f, paths.WantTrue, atoms(all(prefixAtoms, false)), 0,
+			"Covers never returns true unless the other command has the receiver as textual prefix (strings.HasPrefix / CutPrefix of other by c)")
+		x.noPath("C15.R1", "boundary-required", f, paths.WantTrue, atoms(all(boundaryAtoms, false)), 0,
+			"Covers never returns true on a bare textual prefix: c == \"/\", or nothing follows the prefix, or a '/' follows it")
+		nP, nB := 0, 0
+		for _, pa := range prefixAtoms {
+			if !used[pa] {
+				continue
+			}
+			nP++
+			for _, ba := range boundaryAtoms {
+				if !used[ba] {
+					continue
+				}
+				nB++
+				x.noPath("C15.R1", "covers:"+shortAtom(ba), f, paths.WantFalse, atoms(map[string]bool{pa: true, ba: true}), 0, "prefix and boundary ("+shortAtom(ba)+") together imply coverage: no 'false' path")
+			}
+		}
+		x.C.Obl("C15.R1", "facts-present", x.pos(f), "Covers tests a prefix fact and at least the three boundary cases (top, equal, separator)", nP >= 1 && nB >= 3, fmt.Sprintf("%d prefix form(s), %d boundary fact(s) found", nP, nB))
+		x.somePath("C15.R1", "covers:reachable", f, paths.WantTrue, paths.None, 0, "some path returns true")
 	}
 	if f := x.fn("C15.R2", "pkg/command.Parse"); f != nil {
 		lead := `call[strings.HasPrefix](arg0,const("/"))`
@@ -87,4 +123,14 @@ func runC15(x *Ctx) {
 	sepOK("pkg/command.Top", 1)
 	sepOK("(pkg/command.Command).Join", 1)
 	sepOK("(pkg/command.Command).Segments", 1)
+}
+
+func shortAtom(a string) string {
+	switch {
+	case strings.Contains(a, `const("/"),recv`):
+		return "top"
+	case strings.Contains(a, "len(arg0),len(recv)") || strings.HasSuffix(a, `const(""))`) || strings.Contains(a, "const(0),len(") || strings.Contains(a, "),const(0))"):
+		return "equal"
+	}
+	return "child"
 }
